@@ -26,6 +26,8 @@ MODELS = [
     ("vectorised-nonuniform", {"name": "gauss_nonuniform", "dims": 2}, {}),
     ("not-allowed-vectorised", {"name": "gauss", "dims": 3}, {"allow_vectorised": False, "allow_vectorised_prior": False}),
     ("scalar-returning", {"name": "gauss_scalar", "dims": 2}, {}),
+    ("length1-array-returning", {"name": "gauss_array1", "dims": 2}, {}),
+    ("pointwise-prior-vectorised-likelihood", {"name": "gauss_scalar_prior", "dims": 2}, {}),
 ]
 
 
@@ -86,6 +88,7 @@ def pointwise(model, x, which, unit):
             v = model.ref_log_likelihood(xi)
         elif which == "lp":
             v = model.log_prior(xi)
+            v = np.asarray(v, dtype="float64").reshape(-1)[:1]
         else:
             v = model.log_prior_unit_hypercube(x[i:i + 1])
         out.append(np.asarray(v, dtype="float64").reshape(-1)[0])
